@@ -60,8 +60,10 @@ THEOREM_NOTES = {
     "C10_martingale_direct_*": "algebra on the generated drifts; that E exp(jumps) = exp(T pj(1)) is the LK clause (C10_hem_exponent for HEM, hence "
         "1 < eta1; oracle for Merton); the law of jump_increment is assumed (C02)",
     "C10_martingale_ctmc_hem": "un-truncated chain, HEM: Jc is the limit of int (e^x - 1 - x) hem_nu and m1 the generated hem_integrate_x: growth = r - d",
-    "C10_ctmc_truncation_bias_zero / _refuted": "the chain truncates the measure before converting: growth = r - d - int_outside (e^x - 1) nu for a "
-        "ZERO-declared model; finding F-C10-5 (KNOWN, magnitude 1e-5 .. 1e-2 per year, growing as h decreases)",
+    "C10_ctmc_truncation_bias_algebra": "algebra over free numbers (shape of the bias)",
+    "C10_ctmc_truncated_hem": "CONTENT: HEM, -1 < l < 0 < r < 1, m1t = truncated_integrate of the generated hem_integrate_x, Jct = RInt of "
+        "(e^x-1-x) hem_nu over [l,r]: growth = r - d - removed_tail (closed form), < r - d when p = 1; other models / wider truncations: "
+        "oracle only (finding F-C10-5, KNOWN, 1e-5 .. 7e-2 per year on the default grids, growing as h decreases)",
     "moment strip": "exponential models outside the strip (E exp(L_1) infinite) are refused by the code (fixes a7ff60d, 5d1e949): oracle `_strip_oracle`; "
         "no theorem states the strip of VG / CGMY",
     "complex arguments of levy_exponent": "not modelled; oracle compares levy_exponent(u) at real u with the complex LK quadrature",
@@ -241,6 +243,8 @@ def _oracle(res, rng):
                                                                                direct=got1, cf=[got2.real, got2.imag], expected=fwd))
     _conversions_oracle(res, rng)
     _truncated_conversions_oracle(res, rng)
+    _levy_model_drift_oracle(res, rng)
+    _rebuilt_oracle(res, rng)
     _strip_oracle(res, rng)
     _ctmc_skips(res)
 
@@ -288,6 +292,7 @@ def _ctmc_route(res, rng, kind, params, em, nu, hk, r, d, ykey):
         res.bump("ctmc_grid", f"{gkind} h={h}" + (" (truncation inside (-1,1))" if -1 < l and rr < 1 else ""))
         rep = dict(kind="forward-ctmc", model=kind, params=params, r=r, d=d, h=h, grid=gkind, truncations=[l, rr], process_drift=float(mcp._process_drift),
                    mu_h=mu_h, growth_under_exact_truncated_law=growth, bias=bias, removed_tail=tail, expected=r - d)
+        rep["truncation_as_specified"] = bool(_truncation_ok(nu, gkind, h, float(l), float(rr)))
         explained = _close(bias + tail, 0.0, rel=1e-7, ab=1e-8)
         if not explained:
             if kind == "cgmy":
@@ -298,6 +303,21 @@ def _ctmc_route(res, rng, kind, params, em, nu, hk, r, d, ykey):
             rep["finding"] = "F-C10-5"
             res.violation(f"{kind}{ykey}: the Markov-chain drift with the exact law of the truncated measure misses r-d by the exponential "
                           f"moment of the truncated tails (|bias| > {CTMC_BIAS_TOL:g} per year)", rep)
+
+
+def _truncation_ok(nu, gkind, h, l, r, p=0.99999):
+    """is the truncation [l, r] the chain works with the one its constructor's ARGUMENTS specify (computed here independently)?
+    `narrow`: create_from_fixed_nb_of_points(h, 20) -> [-10 h, 10 h];  `auto`: CTMCUniformGrid(h, model, 0.99999) -> the points
+    where the mass of the density between h/2 and the bound is the fraction p of the mass beyond h/2, on each side."""
+    if gkind == "narrow":
+        return abs(l + 10 * h) <= 1e-12 and abs(r - 10 * h) <= 1e-12
+    f = lambda x: mp.mpf(float(nu(float(x))))
+    try:
+        right = mp.quad(f, [h / 2, r]) / (mp.quad(f, [h / 2, r]) + mp.quad(f, [r, max(2 * r, r + 1), mp.inf]))
+        left = mp.quad(f, [l, -h / 2]) / (mp.quad(f, [l, -h / 2]) + mp.quad(f, [-mp.inf, min(2 * l, l - 1), l]))
+    except Exception:  # noqa
+        return False
+    return abs(float(right) - p) <= 1e-8 and abs(float(left) - p) <= 1e-8
 
 
 def _ctmc_skips(res):
@@ -313,7 +333,7 @@ def matches_known(v, known):
     if known["id"] == "F-C10-5":
         # truncation bias of the Markov-chain route: the gap must BE minus the removed tail integral (same quadrature, same
         # declared representation) and of the recorded order of magnitude (observed 1e-5 .. 7e-2 per year; cap 0.5)
-        return (r.get("kind") == "forward-ctmc" and "bias" in r and "removed_tail" in r
+        return (r.get("kind") == "forward-ctmc" and "bias" in r and "removed_tail" in r and r.get("truncation_as_specified") is True
                 and abs(r["bias"] + r["removed_tail"]) <= 1e-7 * max(1.0, abs(r["removed_tail"])) + 1e-8
                 and CTMC_BIAS_TOL < abs(r["bias"]) and (abs(r["bias"]) < 0.5 or r.get("grid") == "narrow"))
         # (hand-sized `narrow` grids cut the measure wherever the user puts the grid: the size of the tail is then arbitrary;
@@ -451,18 +471,120 @@ def _truncated_conversions_oracle(res, rng):
                     break
 
 
+def _levy_model_drift_oracle(res, rng):
+    """NON-exponential models simulated directly (process L itself): the mean rate of the simulated process,
+    process_drift() + (int x nu if the declared representation does not compensate the jumps), must be cumulant1(1);
+    and for the families with a jump sampler (HEM, Merton) the law of jump_increment must be nu / intensity."""
+    from rpylib.model.levymodel.levymodel import LevyRepresentation as LR
+    from rpylib.process.levyprocess import LevyProcess
+    for kind, params in L.model_sets(rng, 1 if res.tier == "quick" else 4):
+        model, nu = L.build(kind, params)
+        rep = model.levy_triplet.representation
+        mean_jumps = L.quad_xn_nu(nu, -INF, INF, 1) if rep == LR.ZERO else 0.0     # CENTER: jumps are compensated
+        pd = float(LevyProcess(model).deterministic_path(np.array([1.0]))[0]) - float(model.x0_value())
+        want = float(model.cumulant.cumulant1(1.0))
+        res.count(("levy-drift", kind, tuple(sorted(params.items()))), kind="oracle direct simulation of the Levy model: mean rate = cumulant1")
+        if not _close(pd + mean_jumps, want, rel=1e-8, ab=1e-10):
+            res.violation(f"{kind}: process_drift() of the (non-exponential) Levy model plus the mean of the jumps is not cumulant1",
+                          dict(kind="levy-drift", model=kind, params=params, process_drift=pd, triplet_a=float(model.levy_triplet.a),
+                               mean_of_jumps=mean_jumps, cumulant1=want, finding="F-C10-9"))
+        if kind in ("hem", "merton"):
+            _jump_law(res, kind, params, model, nu)
+
+
+def _jump_law(res, kind, params, model, nu):
+    """law of jump_increment: the uniforms / normals it draws are replaced by a product grid of mid-point quantiles, so the sample
+    IS the sampler's law up to the grid; its distribution function must be nu(-inf, x] / intensity"""
+    from scipy.special import ndtri
+    N, M = 64, 400
+    u = np.repeat((np.arange(N) + 0.5) / N, M)
+    v = np.tile((np.arange(M) + 0.5) / M, N)
+    seq = [u, v]
+    orig_random, orig_normal = np.random.random, np.random.normal
+    calls = {}
+
+    def fake_random(size=None):
+        return seq.pop(0)[: size if size is not None else 1]
+
+    def fake_normal(loc=0.0, scale=1.0, size=None):
+        calls["loc"], calls["scale"] = loc, scale
+        return loc + scale * ndtri((np.arange(size) + 0.5) / size)
+    np.random.random, np.random.normal = fake_random, fake_normal
+    try:
+        z = np.asarray(model.jump_increment(n=N * M), dtype=float)
+    finally:
+        np.random.random, np.random.normal = orig_random, orig_normal
+    lam = float(model.intensity())
+    for x in (-0.5, -0.2, -0.05, 0.05, 0.2, 0.5):
+        emp = float(np.mean(z <= x))
+        want = float(nu.integrate(-INF, x)) / lam
+        res.count(("jump-law", kind, tuple(sorted(params.items())), x), kind="oracle law of jump_increment")
+        if abs(emp - want) > 3.0 / N + 3.0 / M:
+            res.violation(f"{kind}: the law of jump_increment is not nu / intensity",
+                          dict(kind="jump-law", model=kind, params=params, x=x, sampled_cdf=emp, expected_cdf=want))
+            break
+
+
+def _rebuilt_oracle(res, rng):
+    """exponent, omega and forward after the library's calibration sequence (deepcopy parameters, set one attribute,
+    initialisation(), rebuild the exponential model): quantities cached in the parameters must be refreshed"""
+    import copy
+    news = {"hem": dict(p=[0.25], eta1=[4.0], eta2=[2.5], intensity=[0.6], sigma=[0.2]),
+            "merton": dict(mu_j=[0.3], sigma_j=[0.1], intensity=[0.4], sigma=[0.25]),
+            "vg": dict(sigma=[0.3], nu=[0.6], theta=[0.2]),
+            "cgmy": dict(c=[0.12], g=[2.5], m=[12.0], y=[1.3, -0.5, 1.0, 0.0])}
+    for kind in ("hem", "merton", "vg", "cgmy"):
+        base_params = dict(L.FIXED[kind][0]) if kind != "cgmy" else dict(c=0.05, g=10.0, m=8.0, y=0.5)
+        base = L.build_exp(kind, base_params, 100.0, 0.03, 0.01)
+        for name, values in news[kind].items():
+            for value in values:
+                pars = copy.deepcopy(base.levy_model.parameters)
+                setattr(pars, name, value)
+                pars.initialisation()
+                em = type(base)(100.0, 0.03, 0.01, pars)
+                model, nu = em.levy_model, em.levy_triplet.nu
+                params = dict(base_params, **{name: value})
+                hk = _rep_h(model)
+                lo, hi = strip(kind, params)
+                a0, sig = model._original_drift, model.levy_triplet.sigma
+                res.count(("rebuilt", kind, name, value), kind="oracle exponent / omega after Parameters.initialisation")
+                rep = dict(kind="rebuilt", model=kind, base=base_params, attribute=name, value=value)
+                for s_ in (1.0 if hi > 1.05 else 0.5 * hi, 0.5 * lo):
+                    ref = a0 * s_ + 0.5 * sig ** 2 * s_ ** 2 + complex(lk_quad(nu, hk, s_))
+                    got = kappa_impl(model, s_)
+                    if not _close(got, ref):
+                        res.violation(f"after the calibration sequence (set {name}, initialisation(), rebuild): {kind} levy_exponent(-i s) "
+                                      f"differs from the Levy-Khintchine integral of the rebuilt model's density",
+                                      dict(rep, s=s_, got=[got.real, got.imag], expected_LK_integral=[ref.real, ref.imag]))
+                        break
+                if hi > 1.05:
+                    om = -(a0 + 0.5 * sig ** 2 + complex(lk_quad(nu, hk, 1.0)).real)
+                    fwd = complex(em.log_characteristic_function(1.0, -1j))
+                    if not _close(float(em.omega), om) or not _close(fwd, 100.0 * math.exp(0.02), rel=1e-9):
+                        res.violation(f"after the calibration sequence (set {name}, initialisation(), rebuild): {kind} omega / forward are stale",
+                                      dict(rep, omega=float(em.omega), expected_omega=om, forward=[fwd.real, fwd.imag]))
+                c1 = float(model.cumulant.cumulant1(1.0))
+                d1 = cauchy_derivative(model, 1, 0.45 * min(abs(lo), abs(hi)) if kind != "merton" else 1.0)
+                if not _close(c1, d1.real, rel=1e-7, ab=1e-10):
+                    res.violation(f"after the calibration sequence (set {name}, initialisation(), rebuild): {kind} cumulant1 is stale",
+                                  dict(rep, cumulant1=c1, derivative=[d1.real, d1.imag]))
+
+
 def _strip_oracle(res, rng):
     """exponential models whose parameters make E exp(L_1) infinite must be refused (ValueError), never return a forward"""
     bad_sets = [("cgmy", dict(c=1.0, g=4.0, m=0.8, y=0.5)), ("cgmy", dict(c=0.7, g=3.0, m=0.3, y=1.5)), ("cgmy", dict(c=1.0, g=4.0, m=0.9, y=-0.5)),
+                ("cgmy", dict(c=1.0, g=4.0, m=0.8, y=-1.0)), ("cgmy", dict(c=0.6, g=3.0, m=0.5, y=-2.0)), ("cgmy", dict(c=1.0, g=4.0, m=1.0, y=-1.0)),
+                ("cgmy", dict(c=1.0, g=4.0, m=1.0, y=0.0)), ("cgmy", dict(c=1.0, g=4.0, m=0.7, y=1.0)), ("cgmy", dict(c=1.0, g=4.0, m=0.7, y=0.0)),
                 ("vg", dict(sigma=0.9, nu=1.5, theta=0.3)), ("vg", dict(sigma=1.2, nu=2.0, theta=0.0)),
                 ("hem", dict(sigma=0.1, p=0.4, eta1=0.5, eta2=5.0, intensity=1.0)), ("hem", dict(sigma=0.1, p=0.4, eta1=0.9, eta2=5.0, intensity=2.0)),
                 ("hem", dict(sigma=0.1, p=0.4, eta1=1.0, eta2=5.0, intensity=2.0))]
-    bad_sets.append(("cgmy", dict(c=L.rnd(rng, 0.2, 2), g=L.rnd(rng, 2, 8, 1), m=L.rnd(rng, 0.1, 0.95), y=rng.choice([-0.5, 0.0, 0.3, 1.0, 1.5]))))
+    bad_sets.append(("cgmy", dict(c=L.rnd(rng, 0.2, 2), g=L.rnd(rng, 2, 8, 1), m=L.rnd(rng, 0.1, 0.95), y=rng.choice([-3.0, -2.0, -1.0, -0.5, 0.0, 0.3, 1.0, 1.5]))))
     bad_sets.append(("hem", dict(sigma=0.1, p=L.rnd(rng, 0.1, 0.9), eta1=L.rnd(rng, 0.1, 0.99), eta2=L.rnd(rng, 1, 9, 1), intensity=L.rnd(rng, 0.5, 3))))
     for kind, params in bad_sets:
         lo, hi = strip(kind, params)
-        if hi > 1.0:
-            continue
+        if hi > 1.0 or (hi == 1.0 and kind == "cgmy" and params["y"] > 0):
+            continue       # E exp(L_1) finite (at m = 1 the CGMY tail x^(-1-y) is integrable iff y > 0)
+        res.bump("strip_case", f"{kind}" + (f" y={params['y']:g}" if kind == "cgmy" else ""))
         res.count(("strip", kind, tuple(sorted(params.items()))), kind="oracle parameters outside the moment strip must be refused")
         try:
             em = L.build_exp(kind, params, 100.0, 0.03, 0.01)
@@ -730,8 +852,9 @@ LEVEL_TEXT = ("Proof (partial): 20 Coq statements (3 of them plain algebra, name
               "CGMY and Black-Scholes satisfy: cumulant1/2 = t * first/second derivative of kappa at 0 (CGMY partially), the characteristic-"
               "function route (algebra) and the direct-simulation drift (BS, Merton, HEM with 1 < eta1) give the forward S0 exp((r-d)T); for HEM "
               "the exponent is proved to be the Levy-Khintchine integral of the generated density and the un-truncated Markov-chain drift "
-              "to give the forward; with the truncation the code applies the chain route is proved NOT to be a martingale (known finding "
-              "F-C10-5: bias = minus the exponential moment of the removed tails). For Merton, VG and CGMY the exponent-versus-"
+              "to give the forward; with the truncation the code applies, a HEM instance (grid inside (-1,1)) is proved to grow at r - d minus the exponential "
+              "moment of the removed tails, strictly below r - d for upward jumps only; for the other models this bias is measured by "
+              "the quadrature oracle (known finding F-C10-5). For Merton, VG and CGMY the exponent-versus-"
               "density clause, higher cumulants and complex arguments are validated only by the mpmath quadrature / Cauchy-integral oracle.")
 LEVEL_NOTE = ("Trusted: Coq kernel, standard real/classical axioms, py2coq (fail-closed), the hand model of levy_exponent on the real axis "
               "(complex arithmetic not modelled) tied by interval case lemmas on levy_exponent(-1j*s).real, Gamma as an opaque function.")
